@@ -82,6 +82,27 @@ class HOther(HBase):
     pass
 
 
+class MRec:
+    """printer registered BY NAME when this module is imported: it stays pending until some print needs it"""
+
+
+class MPoint(MRec, tuple):
+    """two bases: the MRO is MPoint, MRec, tuple, object while __base__ (the layout base) is tuple"""
+
+
+class MMap(MRec, dict):
+    pass
+
+
+class MList(MRec, list):
+    pass
+
+
+@register_pretty(__name__ + '.MRec')
+def pretty_mrec(v, ctx):
+    return prettyprinter.pretty_call(ctx, type(v), size=len(v) if hasattr(v, '__len__') else -1)
+
+
 def _op_register_hbase_by_name():
     @register_pretty(__name__ + '.HBase')
     def pretty_hbase(v, ctx):
@@ -172,6 +193,10 @@ def build_corpus(quick):
     add('hsub', HSub(1))
     add('hbase', HBase(2))
     add('hother-nested', [HOther(3), HSub(4)])
+    add('mpoint', MPoint((1, 2)))
+    add('mrec', MRec())
+    add('mmap', MMap(a=1))
+    add('mlist-nested', {'k': [MList([1]), MPoint((3,))]})
     add('failing', Failing())
     add('failing-nested', {'ok': [1, 2], 'bad': Failing(), 'also ok': 'text'})
     add('userobj', UserObj())
@@ -386,6 +411,8 @@ def run_shard(sh):
         ['gmtime', 'hostile-struct_time', 'gmtime', 'stat_result', 'sys.flags', 'version_info'],
         ['cyclic-list', 'shared', 'cyclic-dict', 'cyclic-list', 'shared'],
         ['commented-dict', 'commented', 'commented-top', 'commented-dict'],
+        ['mpoint', 'mrec', 'mpoint', 'mmap', 'mlist-nested'],
+        ['mmap', 'mlist-nested', 'mpoint', 'mrec', 'mmap', 'mlist-nested', 'mpoint'],
         list(reversed(names)),
         names + names,
         ['sometimes-good', 'sometimes-bad', 'sometimes-good', 'sometimes-good-nested', 'sometimes-bad', 'sometimes-good'],
